@@ -40,7 +40,7 @@ add("C05", "E1-explore",
     "Same exploration as C04 (BFS, E2 undo/redo sequences, constructor variants incl. zero-based lineage ids) with the lineage partition compared with weakly connected components (independent networkx undirected recomputation) and the lineage frame clause on every transition.",
     E1NOTE, MC, "DESIGN.md 4 C05")
 add("C06", "E1-explore",
-    "On every reachable state and after every undo/redo: both lookups vs a scan of the graph (keys, no empty/duplicate/stale entries), freshness of next track/lineage/node ids, and get_track_neighbors / has_track_id_at_time for every used and unused id and every t in -1..T vs a linear scan.",
+    "On every reachable state and after every undo/redo: both lookups vs a scan of the graph (no missing, duplicated or stale entries), freshness of next track/lineage/node ids, and get_track_neighbors / has_track_id_at_time for every used and unused id and every t in -1..T vs a linear scan.",
     E1NOTE, MC, "DESIGN.md 4 C06")
 add("C11", "E1-explore",
     "Every (state, event) pair of the bounded space whose call raises - the alphabet deliberately contains refusal inputs (missing time/track id/position, existing id, unknown node/edge, merge / third child / non-forward without force, forced edits whose later step fails, protected attributes, bad swaps, paint with a refused nested add) - is followed by a comparison of the full snapshot (graph, raw attributes, array, lookups, registry, both history stacks structurally; the id counters are excluded) with the one taken before the call, and by a check that no refresh was emitted.",
